@@ -1369,7 +1369,9 @@ func (c *immuClient) VerifiedSet(ctx context.Context, key []byte, value []byte) 
 		return nil, store.ErrCorruptedData
 	}
 
-	if tx.Header().Eh != schema.DigestFromProto(verifiableTx.DualProof.TargetTxHeader.EH) {
+	if tx.Header().Eh != schema.DigestFromProto(verifiableTx.DualProof.TargetTxHeader.EH) ||
+		tx.Header().Eh != schema.DigestFromProto(verifiableTx.Tx.Header.EH) {
+		// the returned header is handed to the caller as it is: its EH must be the re-calculated one
 		return nil, store.ErrCorruptedData
 	}
 
@@ -1763,7 +1765,9 @@ func (c *immuClient) VerifiedSetReferenceAt(ctx context.Context, key []byte, ref
 		return nil, store.ErrCorruptedData
 	}
 
-	if tx.Header().Eh != schema.DigestFromProto(verifiableTx.DualProof.TargetTxHeader.EH) {
+	if tx.Header().Eh != schema.DigestFromProto(verifiableTx.DualProof.TargetTxHeader.EH) ||
+		tx.Header().Eh != schema.DigestFromProto(verifiableTx.Tx.Header.EH) {
+		// the returned header is handed to the caller as it is: its EH must be the re-calculated one
 		return nil, store.ErrCorruptedData
 	}
 
@@ -1933,7 +1937,9 @@ func (c *immuClient) VerifiedZAddAt(ctx context.Context, set []byte, score float
 		return nil, store.ErrCorruptedData
 	}
 
-	if tx.Header().Eh != schema.DigestFromProto(vtx.DualProof.TargetTxHeader.EH) {
+	if tx.Header().Eh != schema.DigestFromProto(vtx.DualProof.TargetTxHeader.EH) ||
+		tx.Header().Eh != schema.DigestFromProto(vtx.Tx.Header.EH) {
+		// the returned header is handed to the caller as it is: its EH must be the re-calculated one
 		return nil, store.ErrCorruptedData
 	}
 
